@@ -77,7 +77,7 @@ Definition w_hd (w : world) : world :=
   upd_live (upd_sess w (sess_handle_disconnect (w_sess w))) (w_conn w) false (w_event w).
 
 (* ---------- the automatic broker: answers every complete client packet as MQTT 5 prescribes ---------- *)
-Definition broker_reply (pkt : bytes) : bytes :=
+Definition broker_reply (mode : N) (pkt : bytes) : bytes :=
   match pkt with
   | [] => []
   | h :: t =>
@@ -98,13 +98,19 @@ Definition broker_reply (pkt : bytes) : bytes :=
           else if N.eqb typ 8 then match body with a :: b :: _ => [144; 4; a; b; 0; 0] | _ => [] end
           else if N.eqb typ 10 then match body with a :: b :: _ => [176; 4; a; b; 0; 0] | _ => [] end
           else if N.eqb typ 12 then [208; 0]
+          else if N.eqb typ 1 && N.eqb mode 2 then
+            (* mode 2: a conformant CONNACK — success, session present iff the CONNECT did not ask for a clean start *)
+            match dropN 7 body with
+            | fl :: _ => [32; 3; (if N.testbit fl 1 then 0 else 1); 0; 0]
+            | [] => []
+            end
           else []
       | _ => []
       end
   end.
 
 (* split complete packets off the front of a byte stream *)
-Fixpoint broker_split (fuel : nat) (buf : bytes) (acc : bytes) : bytes * bytes :=
+Fixpoint broker_split (mode : N) (fuel : nat) (buf : bytes) (acc : bytes) : bytes * bytes :=
   match fuel with
   | O => (acc, buf)
   | S f =>
@@ -116,7 +122,7 @@ Fixpoint broker_split (fuel : nat) (buf : bytes) (acc : bytes) : bytes * bytes :
               if lenN body <? n then (acc, buf)
               else
                 let total := 1 + (lenN t - lenN body) + n in
-                broker_split f (dropN total buf) (acc ++ broker_reply (takeN total buf))
+                broker_split mode f (dropN total buf) (acc ++ broker_reply mode (takeN total buf))
           | VErrShort => (acc, buf)
           | VErrBad => (acc, [])          (* garbage: the broker gives up on this stream *)
           end
@@ -126,7 +132,7 @@ Fixpoint broker_split (fuel : nat) (buf : bytes) (acc : bytes) : bytes * bytes :
 Definition broker_feed (w : world) (accepted : bytes) : world :=
   if N.eqb (w_broker w) 0 then w else
   let buf := w_txbuf w ++ accepted in
-  let '(replies, rest) := broker_split (S (length buf)) buf [] in
+  let '(replies, rest) := broker_split (w_broker w) (S (length buf)) buf [] in
   let w1 := upd_txbuf w rest in
   match replies with
   | [] => w1
